@@ -636,6 +636,16 @@ func checkC18(c *Case, s *Stats) error {
 			}
 		}
 		levels = len(fresh.Stat().Levels)
+		// a Stat report belongs to the caller: scribbling over one must not change the next
+		s1 := st.Stat()
+		snap := fmt.Sprintf("%+v", *s1)
+		s1.KeyCnt, s1.NodeCnt, s1.LevelCnt = -7, -8, -9
+		for i := range s1.Levels {
+			s1.Levels[i].Total, s1.Levels[i].Inner, s1.Levels[i].Leaf = -1, -2, -3
+		}
+		if again := fmt.Sprintf("%+v", *st.Stat()); again != snap {
+			return viol("stat", "modifying a returned Stat changed the next Stat(): %s -> %s", snap, again)
+		}
 		// independent observable: String() renders one line per node
 		if st.Stat().NodeCnt > 3000 || (c.HasVals && !isRenderEnc(c.Enc)) {
 			return nil // String() is quadratic in the node count; C19 covers large tries
